@@ -297,10 +297,20 @@ def subst_sv(sv, sub):
 def _havoc_heap(engine, st, spec, pre_st):
     """havoc the heap locations named by the loop's modifies clause"""
     fields = set()
-    for loc in spec.modifies:
+    c = engine.current_contract
+    extra = list(c.interfere) if (c is not None and c.interfere and engine.verifying == st.frame.fq) else []
+    for loc in list(spec.modifies) + [l for l in extra if l not in spec.modifies]:
         if loc.startswith("*."):
             fld = loc[2:]
             st = st.with_heap(fld, S.fresh("Hloop_" + fld, S.MapS))
+            fields.add(fld)
+            continue
+        if loc.startswith("fresh."):
+            # only objects allocated since the loop was entered: H' = \o. alive_entry[o] ? H[o] : anything
+            fld = loc[6:]
+            o = S.fresh("o", V)
+            arr = engine.heap_arr(st, fld)
+            st = st.with_heap(fld, z3.Lambda([o], z3.If(engine.alive(pre_st)[o], arr[o], S.fresh("Hfresh_" + fld, S.MapS)[o])))
             fields.add(fld)
             continue
         expr, fld = loc.rsplit(".", 1)
@@ -340,6 +350,12 @@ def _invariant_rule(engine, n, st, plan, spec):
         for m in sorted(mods):
             stx = stx.set(m, engine.fresh_like(stx.env[m], f"{m}_{tag}"))
         stx, fields = _havoc_heap(engine, stx, spec, entry)
+        if any(l.startswith("fresh.") for l in spec.modifies) or spec.allocates:
+            # the loop may allocate: the set of live objects grows arbitrarily
+            al0 = engine.alive(entry)
+            al = S.fresh("ALIVE_" + tag, S.SetS)
+            o = S.fresh("o", V)
+            stx = stx.with_ghost("alive", al).with_facts([z3.ForAll([o], z3.Implies(al0[o], al[o]))])
         return stx, fields
 
     # 1. initiation
@@ -379,7 +395,7 @@ def _invariant_rule(engine, n, st, plan, spec):
                 continue
             for st2, out in engine.exec_block(n.body, st1):
                 if out.kind in ("normal", "continue"):
-                    _check_undeclared_heap(engine, sth, st2, fields, n, fq)
+                    _check_undeclared_heap(engine, sth, st2, fields, n, fq, spec, entry)
                     if plan.kind == "seq":
                         envn = inv_env(st2, i=i + 1)
                     else:
@@ -388,7 +404,7 @@ def _invariant_rule(engine, n, st, plan, spec):
                         g, stg = spec_bool(engine, text, st2, extra=envn, loop_entry=entry)
                         engine.oblige(stg, g, f"{fq}:loop{ordinal}:inv.{name}:preserved:{len(engine.obligs)}", kind="loop-preserve", func=fq, clause=f"loop{ordinal}.inv.{name}.preserved", props=_cprops(engine, fq, f"loop{ordinal}"))
                 elif out.kind == "break":
-                    _check_undeclared_heap(engine, sth, st2, fields, n, fq)
+                    _check_undeclared_heap(engine, sth, st2, fields, n, fq, spec, entry)
                     yield from _after_loop(engine, n, st2, True)
                 else:
                     yield st2, out
@@ -417,8 +433,19 @@ def _all_keys(plan):
     return z3.Lambda([y], z3.Exists(plan.vars, And(plan.mem, plan.key == y)))
 
 
-def _check_undeclared_heap(engine, before, after, declared, n, fq):
+def _check_undeclared_heap(engine, before, after, declared, n, fq, spec=None, entry=None):
+    fresh_only = set()
+    if spec is not None:
+        exact = {l.rsplit(".", 1)[1] for l in spec.modifies if not l.startswith("fresh.")}
+        fresh_only = {l[6:] for l in spec.modifies if l.startswith("fresh.")} - exact
     for fld, arr in after.heap.items():
+        if fld in fresh_only:
+            old = before.heap.get(fld)
+            if old is not None and not arr.eq(old):
+                o = S.fresh("fo", V)
+                goal = z3.ForAll([o], z3.Implies(engine.alive(entry)[o], arr[o] == old[o]))
+                engine.oblige(after, goal, f"{fq}:loop-frame.{fld}:{len(engine.obligs)}", kind="loop-frame", func=fq, clause=f"loop-frame.{fld}", props=_cprops(engine, fq, "loop-frame"))
+            continue
         if fld in declared:
             continue
         old = before.heap.get(fld)
